@@ -33,10 +33,16 @@ def gen_one(rng, big):
         first = [op_new(rng.choice(BODY_METHODS), "1.1", "http", "a.test", "/c", [("Transfer-Encoding", rng.choice(["chunked", "Chunked", "CHUNKED"]))])]
     else:
         first = [op_new(rng.choice(["GET", "DELETE", "OPTIONS"]), "1.1", "http", "a.test", "/c", []), "despite"]
-    ops = first + ["proceed", "write_head #4096", "proceed", "q_is_chunked"]
+    if kind < 0.6 and rng.random() < 0.25:
+        first = [op_new("POST", "1.0", "http", "a.test", "/c", [])]          # HTTP/1.0 requests frame an unsized body chunked as well
+    ops = first + ["proceed", "write_head #4096"] + (["write_head #4096"] if rng.random() < 0.3 else []) + ["proceed", "q_is_chunked"]
     nops = rng.randrange(1, 13)
     for _ in range(nops):
         r = rng.random()
+        if r < 0.06:
+            # consume_direct_write is refused for a chunked body (BodyIsChunked) and must leave the body as it was
+            ops.append("direct %s" % num(rng.choice([0, 1, 5])))
+            continue
         if r < 0.2:
             _stats["finishing"] += 1
             ops.append("write_body x %s" % num(rng.choice([0, 1, 2, 3, 4, 5, 6, 10, 100])))
@@ -65,8 +71,9 @@ def gen_one(rng, big):
         ops.append("write_body %s %s" % (hx(patt(ln, rng)), num(cap)))
         if rng.random() < 0.2:
             ops.append("q_can_proceed")
-    ops += ["q_can_proceed", "write_body x #3", "q_can_proceed", "write_body x #5", "q_can_proceed", "write_body x #100",
-            "write_body %s #100" % hx(b"late"), "q_can_proceed", "proceed"]
+    ops += ["q_can_proceed", "write_body x #3", "q_can_proceed", "write_body x #5", "q_can_proceed"] + \
+           (["direct #1", "q_can_proceed"] if rng.random() < 0.5 else []) + \
+           ["write_body x #100", "write_body %s #100" % hx(b"late"), "q_can_proceed", "proceed"]
     return {"ops": ops, "meta": {}}
 
 
